@@ -179,7 +179,10 @@ pub fn check_fit(rep: &mut Reporter, ctx: &str, backend: &str, t: &Truth, labels
         rep.v("dbscan.fit:label-out-of-range", || {
             format!("{} backend={}: point {} carries label {} which is neither noise (-1) nor in 0..num_classes-1 (num_classes={}); labels={:?}", ctx, backend, i, l, c, labels)
         });
-        return false;
+        if labels.iter().any(|l| *l >= c as i64) {
+            return false;
+        }
+        // labels below -1 are treated as "not in a cluster" by the remaining clauses
     }
     // labels 0..c-1 without gaps
     let mut used = vec![false; c];
